@@ -21,6 +21,8 @@ GEN = {
     "GenEndpointSim": {"tla": "GenEndpoint.tla", "cfg": "GenEndpoint_sim.cfg", "simulate_quick": "num=12", "depth": 50,
                        "simulate_thorough": "num=150"},
     "GenEndpoint3": {"tla": "GenEndpoint.tla", "cfg": "GenEndpoint3.cfg"},
+    "GenLink": {"tla": "GenLink.tla", "cfg": "GenLink.cfg"},
+    "GenLinkTwo": {"tla": "GenLink.tla", "cfg": "GenLink_two.cfg", "simulate_thorough": "num=4000", "simulate_quick": "num=300", "depth": 400, "timeout": 3000},
     "GenAlphabet": {"tla": "GenEndpoint.tla", "cfg": "GenAlphabet.cfg"},
     "GenDecode": {"tla": "GenDecode.tla", "cfg": "GenDecode.cfg"},
     "GenDecodeFull": {"tla": "GenDecode.tla", "cfg": "GenDecode_full.cfg"},
@@ -40,22 +42,22 @@ P("C01", "model_checking",
   models=["MC_Codec"], families=["requests", "responses", "vendor", "lengths"])
 P("C02", "model_checking",
   "non-trivial = decode/process of a byte string whose last byte is not the PEC of the rest (every <=8-bit burst of every corpus packet, wrong PEC bytes, random strings); distinct = distinct (context, input bytes)",
-  models=["MC_Pec", "MC_Decode", "MC_Endpoint", "MC_Link"], gen=["GenEndpoint"], families=["bus", "corrupt"])
+  models=["MC_Pec", "MC_Decode", "MC_Endpoint", "MC_Link"], gen_quick=["GenEndpoint", "GenLink"], gen_thorough=["GenEndpoint", "GenLinkTwo"], families=["bus", "corrupt"])
 P("C03", "model_checking",
   "non-trivial = an encoder call that returned Ok (PEC of the output recomputed by the spec); distinct = distinct encoder arguments",
-  models=["MC_Pec", "MC_Codec"], families=["forge", "lengths", "requests", "responses", "vendor"])
+  models=["MC_Pec", "MC_Codec"], gen=["GenAlphabet"], families=["tour", "identity", "vendor_enum", "forge", "lengths", "requests", "responses", "vendor"])
 P("C04", "model_checking",
   "non-trivial = an encoder call with 7-bit source/destination that returned Ok or whose message does not fit; distinct = distinct arguments",
-  models=["MC_Codec", "MC_Link"], families=["forge", "lengths", "requests", "responses", "vendor"])
+  models=["MC_Codec", "MC_Link"], gen=["GenAlphabet"], families=["tour", "identity", "vendor_enum", "forge", "lengths", "requests", "responses", "vendor"])
 P("C05", "model_checking",
   "non-trivial = an encoder call that returned Ok; distinct = distinct (context address, arguments)",
-  models=["MC_Codec"], families=["forge", "hdr_sweep", "requests", "responses", "vendor"])
+  models=["MC_Codec"], gen=["GenAlphabet"], families=["tour", "identity", "vendor_enum", "forge", "hdr_sweep", "requests", "responses", "vendor"])
 P("C06", "model_checking",
   "non-trivial = a control request encoder call that returned Ok; distinct = distinct (encoder, arguments)",
   models=["MC_Codec"], families=["requests"])
 P("C07", "model_checking",
   "non-trivial = a control response encoder call that returned Ok; distinct = distinct (encoder, arguments, stored EID)",
-  models=["MC_Codec"], families=["forge", "responses"])
+  models=["MC_Codec"], gen=["GenAlphabet"], families=["tour", "identity", "vendor_enum", "forge", "responses"])
 P("C08", "model_checking",
   "non-trivial = a vendor_defined / generate_{pci,iana,spdm}_msg_packet_bytes call; distinct = distinct arguments",
   models=["MC_Codec"], families=["vendor", "lengths"])
@@ -67,19 +69,19 @@ P("C10", "exploration",
   models=["MC_Decode", "MC_Endpoint"], gen_quick=["GenDecode"], gen_thorough=["GenDecodeFull"], families=["bus", "robust", "mutate", "corrupt"])
 P("C11", "model_checking",
   "non-trivial = a process_packet call where both decode_packet and process_packet returned; distinct = distinct (context, bytes, buffer size)",
-  models=["MC_Endpoint"], gen=["GenEndpoint", "GenEndpoint3", "GenEndpointSim"], families=["bus", "forge", "robust", "corrupt"])
+  models=["MC_Endpoint"], gen_quick=["GenEndpoint", "GenEndpoint3", "GenEndpointSim", "GenLink"], gen_thorough=["GenEndpoint", "GenEndpoint3", "GenEndpointSim", "GenLinkTwo"], families=["bus", "forge", "robust", "corrupt"])
 P("C12", "model_checking",
   "non-trivial = process_packet on an accepted control request in C12's domain (answerable command, source address = source EID < 0x80, D = 0); distinct = distinct (context, request bytes)",
-  models=["MC_Endpoint", "MC_Link"], gen=["GenEndpoint", "GenEndpoint3", "GenEndpointSim"], families=["bus", "forge", "vendor_enum", "identity", "history"])
+  models=["MC_Endpoint", "MC_Link"], gen_quick=["GenEndpoint", "GenEndpoint3", "GenEndpointSim", "GenLink"], gen_thorough=["GenEndpoint", "GenEndpoint3", "GenEndpointSim", "GenLinkTwo"], families=["bus", "forge", "vendor_enum", "identity", "history"])
 P("C13", "model_checking",
   "non-trivial = a processed Set/Get Endpoint ID packet (accepted, rejected or corrupted) or a direct accessor call; every event with a context is an evaluation of 'nothing else changes it'; distinct = distinct (context, input)",
-  models=["MC_Endpoint", "MC_Link"], gen=["GenAlphabet", "GenEndpoint", "GenEndpoint3", "GenEndpointSim"], families=["bus", "tour", "history", "forge", "corrupt"])
+  models=["MC_Endpoint", "MC_Link"], gen_quick=["GenAlphabet", "GenEndpoint", "GenEndpoint3", "GenEndpointSim", "GenLink"], gen_thorough=["GenAlphabet", "GenEndpoint", "GenEndpoint3", "GenEndpointSim", "GenLinkTwo"], families=["bus", "tour", "history", "forge", "corrupt"])
 P("C14", "model_checking",
   "non-trivial = process_packet on an accepted Get Vendor Defined Message Support request with selector < n; distinct = distinct (configuration, request)",
-  models=["MC_Endpoint", "MC_Link"], gen=["GenEndpoint", "GenEndpoint3", "GenEndpointSim"], families=["bus", "vendor_enum", "forge"])
+  models=["MC_Endpoint", "MC_Link"], gen_quick=["GenEndpoint", "GenEndpoint3", "GenEndpointSim", "GenLink"], gen_thorough=["GenEndpoint", "GenEndpoint3", "GenEndpointSim", "GenLinkTwo"], families=["bus", "vendor_enum", "forge"])
 P("C15", "model_checking",
   "non-trivial = process_packet on an accepted Get UUID / Get Version / Get Message Type Support request; distinct = distinct (configuration, UUID history, request)",
-  models=["MC_Endpoint", "MC_Link"], gen=["GenEndpoint", "GenEndpoint3", "GenEndpointSim"], families=["bus", "identity", "forge"])
+  models=["MC_Endpoint", "MC_Link"], gen_quick=["GenEndpoint", "GenEndpoint3", "GenEndpointSim", "GenLink"], gen_thorough=["GenEndpoint", "GenEndpoint3", "GenEndpointSim", "GenLinkTwo"], families=["bus", "identity", "forge"])
 P("C16", "model_checking",
   "every encoder call is an evaluation (refusal table, exact write extent via poisoned buffers, independence from capacity/poison via repeated calls); distinct = distinct (arguments, capacity, poison)",
   models=["MC_Codec"], families=["requests", "responses", "vendor", "lengths"])
